@@ -86,36 +86,28 @@ pub fn index(o: &mut Obs, env: &Env, ix: &Index, what: &'static str) {
 }
 
 fn dict_helpers<'a>(o: &mut Obs, data: &'a [u8], blend: Option<BlendState<'a>>) {
-    o.helper("dict::tokens");
-    let mut n = 0u32;
-    for t in dict::tokens(data).take(70_000) {
-        match t {
-            Ok(t) => o.d.dbg(&t),
-            Err(e) => {
-                o.ps_err(&e);
-                break;
-            }
-        }
-        n += 1;
-    }
-    o.d.u32(n);
-    o.helper("dict::entries");
-    let mut n = 0u32;
+    // (every token, and so every entry, consumes at least one byte of the dict)
+    let len = data.len() as u64;
+    let mut failed = false;
+    let until_error = dict::tokens(data).take_while(move |r| {
+        let go = !failed;
+        failed |= r.is_err();
+        go
+    });
+    o.drain("dict::tokens", "dict_bytes", len, 70_000, until_error, |o, t| match t {
+        Ok(t) => o.d.dbg(&t),
+        Err(e) => o.ps_err(&e),
+    });
     let mut errs = 0;
-    for e in dict::entries(data, blend).take(70_000) {
-        match e {
-            Ok(e) => o.d.dbg(&e),
-            Err(e) => {
-                o.ps_err(&e);
-                errs += 1;
-                if errs > 8 {
-                    break;
-                }
-            }
-        }
-        n += 1;
-    }
-    o.d.u32(n);
+    let until_errors = dict::entries(data, blend).take_while(move |r| {
+        let go = errs <= 8;
+        errs += r.is_err() as u32;
+        go
+    });
+    o.drain("dict::entries", "dict_bytes", len, 70_000, until_errors, |o, e| match e {
+        Ok(e) => o.d.dbg(&e),
+        Err(e) => o.ps_err(&e),
+    });
 }
 
 #[derive(Default)]
@@ -223,13 +215,12 @@ fn charstrings<'a>(
                 match BlendState::new(s.clone(), c, vs) {
                     Ok(mut b) => {
                         o.d.dbg(&b.region_count().ok());
+                        let regions = b.region_count().unwrap_or(0) as u64;
                         if let Ok(it) = b.scalars() {
-                            for v in it.take(4096) {
-                                match v {
-                                    Ok(v) => o.d.i64(v.to_bits() as i64),
-                                    Err(e) => o.ps_err(&e),
-                                }
-                            }
+                            o.drain("BlendState::scalars", "region_count", regions, 4096, it, |o, v| match v {
+                                Ok(v) => o.d.i64(v.to_bits() as i64),
+                                Err(e) => o.ps_err(&e),
+                            });
                         }
                         o.helper("BlendState::set_store_index");
                         if let Err(e) = b.set_store_index(1) {
@@ -371,14 +362,10 @@ fn charset(o: &mut Obs, env: &Env, cs: &Charset) {
             Err(e) => o.err(&e),
         }
     }
-    o.helper("Charset::iter");
-    let mut k = 0u32;
-    for (g, s) in cs.iter().take(env.cap(70_000, 2_000)) {
+    o.drain("Charset::iter", "num_glyphs", n as u64, env.cap(70_000, 2_000), cs.iter(), |o, (g, s)| {
         o.d.u32(g.to_u32());
         o.d.u32(s.to_u16() as u32);
-        k += 1;
-    }
-    o.d.u32(k);
+    });
 }
 
 pub fn cff2(o: &mut Obs, env: &Env) {
@@ -425,7 +412,8 @@ pub fn raw_postscript(o: &mut Obs, env: &Env, data: &[u8]) {
                     if n <= 0xFFFF {
                         charset(o, env, &cs)
                     } else {
-                        o.d.u64(cs.iter().take(2000).count() as u64);
+                        // (num_glyphs = 2^32-1: not drainable, consumed through take)
+                        o.drain("Charset::iter", "num_glyphs", n as u64, 2000, cs.iter(), |_, _| {});
                         o.d.dbg(&cs.string_id(GlyphId::new(n - 1)).map(|s| s.to_u16()));
                     }
                 }
